@@ -125,11 +125,11 @@ Theorem C09_refine_start_feasible : forall g st vmin_o vmax_o adjust c p,
 Proof. exact refine_start_feasible. Qed.
 Print Assumptions C09_refine_start_feasible.
 
-(* no error value: matching dimension, defined levels (F23 otherwise), valid candidate; lsq_spec is the visible
-   premise on the optimiser *)
+(* no error value: matching dimension, valid candidate (an empty fit region falls back to the default levels: defect
+   F23, repaired); lsq_spec is the visible premise on the optimiser *)
 Theorem C09_refine_ok : forall lsq hyp dev g st vmin_o vmax_o adjust c,
   lsq_spec lsq -> wf c -> valid g c -> length (d_pos c) = g_dim g ->
-  (exists vmin vmax, levels vmin_o vmax_o st = Some (vmin, vmax) /\ (adjust = false \/ vmin < vmax)) ->
+  (adjust = false \/ level_min vmin_o st < level_max vmax_o st) ->
   exists r, refine lsq hyp dev g st vmin_o vmax_o adjust c = ROk r.
 Proof. exact refine_ok. Qed.
 Print Assumptions C09_refine_ok.
